@@ -206,7 +206,7 @@ M += [
     ("C18", L, "                res = np.concatenate((res, [[i, j, k, np.linalg.norm(tmp)]]))", "                length = np.linalg.norm(tmp)\n                if length <= np.max(unit_cell[:3]):\n                    res = np.concatenate((res, [[i, j, k, length]]))", None, "violation", "C18:vectors:laue.coverage"),
     ("C18", L, "                res = np.concatenate((res, [[i, j, k, np.linalg.norm(tmp)]]))", "                length = np.linalg.norm(tmp)\n                res = np.concatenate((res, [[i, j, k, length]]))", None, "silent", ""),
     # reader splitting on any white space (C19b)
-    ("C19", P, '                [name, value] = line.split(" ") ', '                [name, value] = line.split() ', None, "violation", "C19:file:reader"),
+    ("C19", P, '                [name, value] = line.split(" ") ', '                [name, value] = line.split() ', None, "violation", "C19:file:roundtrip:empty-string"),
     # default argument evaluated at import (C20b)
     ("C20", L, "    U = np.asarray(U_matrix, float)\n    if CHECKS.activated: checks._check_rotation_matrix(U)\n\n    ttt", "    U = np.asarray(U_matrix, float)\n\n    ttt", None, "violation", "C20:site:xfab/laue.py:u_to_rod"),
     # cached group object keyed without the setting (C04b-like): instantiation outside __init__
